@@ -90,6 +90,8 @@ static int verif_inflate(z_stream* s, int flush)
   /* zlib.h: Z_OK "if some progress has been made"; Z_BUF_ERROR "if no progress was possible" */
   VERIF_ASSUME(r != Z_OK || s->avail_in != in0 || s->avail_out != out0);
   VERIF_ASSUME(r != Z_BUF_ERROR || (s->avail_in == in0 && s->avail_out == out0));
+  /* progress is impossible only without input or without output space */
+  VERIF_ASSUME(r != Z_BUF_ERROR || in0 == 0 || out0 == 0);
   if (r == Z_STREAM_END) verif_z_state = 2;
   return r;
 }
